@@ -116,12 +116,12 @@ class Structure:
         Returns:
             None
         """
-        update_dic = deepcopy(param_dic)
+        source = deepcopy(param_dic)
+        renamed = set(self.param_mapping.keys()) | set(self.param_mapping.values())
+        update_dic = {key: value for key, value in source.items() if key not in renamed}
         for newname, oldname in self.param_mapping.items():
-            if oldname in update_dic:
-                update_dic.pop(oldname)
-            if newname in param_dic:
-                update_dic[oldname] = update_dic.pop(newname)
+            if newname in source:
+                update_dic[oldname] = source[newname]
         # print(self,param_dic,self.param_mapping,update_dic)
         self.param_dic = update_dic
         if self.model is not None:
